@@ -68,15 +68,29 @@ func genC15(e *emitter, tier string, seed int64) {
 		{"reader", []scriptSrc{{"a.p", "p(\"r\", zero, v, x, y, z, j, i, w)\nuse(\"b.p\")\n"}, {"b.p", "p(\"rb\", zero, v, x, y, z, j, i, w)\n"}}, 0},
 		{"fail-in-if-after-use", []scriptSrc{{"a.p", "v = \"A\"\nzero = 0\nuse(\"b.p\")\nif true {\n  if true {\n    x = 1 / zero\n  }\n}\n"}, {"b.p", "w = \"B\"\n"}}, 0},
 		{"callee-fails-in-for", []scriptSrc{{"a.p", "v = \"A2\"\nj = 5\nuse(\"b.p\")\n"}, {"b.p", "w = \"B2\"\nzz = 0\nfor i = 0; i < 1; i = i + 1 {\n  y = 1 / zz\n}\n"}}, 0},
+		// an engine with adaptive internal state must not carry it from one point to the next
+		{"sql", []scriptSrc{{"a.p", "sql_cover(message)\np(get_key(message))\n"}}, 0},
+		// literals must be fresh objects in every run; a value-less store into a tag must not upset pooled key records
+		{"empty-literals", []scriptSrc{{"a.p", "m = {}\nl = []\np(\"fresh\", m, l, len(m))\nm[\"seen\"] = 1\nl2 = [1]\nl2[0] = 2\nadd_key(dump, m)\n"}}, 0},
+		{"void-into-tag", []scriptSrc{{"a.p", "add_key(t1, a.b)\nset_tag(f1, a.b)\np(get_key(t1), get_key(f1))\n"}}, 0},
+		{"read-all-keys", []scriptSrc{{"a.p", "p(message + message, f1, t1, get_key(k))\nadd_key(n9, len(message))\n"}}, 0},
 		{"map-json", []scriptSrc{{"a.p", "j = load_json(\"{\\\"a\\\": [1, 2.5]}\")\nadd_key(j)\nadd_key(k2, j[\"a\"][1])\n"}}, 0},
 	}
 	points := []pointSpec{
 		{Meas: "m", Time: 1600000000000000000, Fields: []fieldSpec{{"message", "str", "hello 42"}, {"f1", "int", "7"}}, Tags: [][2]string{{"t1", "tv"}}},
 		{Meas: "other", Time: 5, Fields: []fieldSpec{{"message", "str", "x"}, {"k", "str", "pre"}, {"f1", "float", "4609434218613702656"}}},
 	}
+	sqlPoints := []pointSpec{
+		{Meas: "q", Time: 7, Fields: []fieldSpec{{"message", "str", "select * from t where name = 'backslash\\' AND id ='1234'"}}},
+		{Meas: "q", Time: 8, Fields: []fieldSpec{{"message", "str", "SELECT * FROM t WHERE a = 'x\\' -- ' AND b = 'y'"}}},
+	}
 	mkOp := func(i, j int) runCase {
 		s := pool[i]
-		return runCase{Scripts: s.scripts, Entry: "a.p", Point: points[j], SigK: s.sigK, HasSig: true}
+		pt := points[j]
+		if s.name == "sql" {
+			pt = sqlPoints[j]
+		}
+		return runCase{Scripts: s.scripts, Entry: "a.p", Point: pt, SigK: s.sigK, HasSig: true}
 	}
 	emitHist := func(idx [][2]int, gen string) {
 		ops := []runCase{}
